@@ -10,6 +10,9 @@ fn main() {
     let run = Run::from_args("C11", "exploration");
     let fs = fields();
     if let Some(v) = run.load_replay() {
+        if v["case"]["kind"] == "history" {
+            machinery_failure(run.prop, "defragmenter histories are replayed with ./check C07 --replay");
+        }
         let all: Vec<&Target> = fs.iter().flat_map(|f| f.targets.iter().copied()).collect();
         std::process::exit(replay_parse(&run, &all, &v["case"], &|_, _, _| {}));
     }
@@ -89,6 +92,31 @@ fn main() {
         });
         sink.merge(sg);
     }
+    // the record version of raw records handed to the defragmenter: every value, on the first fragment, on the
+    // continuation and on both, of a ClientHello split over two records (accepted = the message comes out)
+    {
+        use vchecks::defrag::{run_history, Op, Rec};
+        let p = vchecks::defrag_explore::client_hello_min();
+        let sd = par_run(run.threads, 256, |hi, sink| {
+            for lo in 0..256u32 {
+                let ver = ((hi as u32) << 8 | lo) as u16;
+                for (v0, v1) in [(ver, 0x0303), (0x0303, ver), (ver, ver), (ver, !ver), (ver, ver.swap_bytes())] {
+                    let alpha = vec![Rec { ty: 0x16, data: p[..7].to_vec(), ver: v0 }, Rec { ty: 0x16, data: p[7..].to_vec(), ver: v1 }];
+                    let ops = [Op::Parse(0), Op::Parse(1)];
+                    sink.evals += 2;
+                    sink.count("record version of defragmenter input", "accepted");
+                    if let Some((n, m)) = run_history(&alpha, &ops) {
+                        sink.violation(
+                            format!("defrag versions {:#06x} {:#06x}", v0, v1),
+                            format!("a ClientHello split over two records with versions {:#06x} / {:#06x}: operation {}: {}", v0, v1, n, m),
+                            json!({"kind":"history","scenario":"C11 record versions","ops":vchecks::defrag_explore::hist_json(&ops[..=n], &alpha)}),
+                        );
+                    }
+                }
+            }
+        });
+        sink.merge(sd);
+    }
     // records that look like SSLv2-compatible hellos / other protocols are records like any other for the envelope parsers
     let foreign = vcommon::catalogue::foreign_protocols();
     let sf = par_run(run.threads, foreign.len(), |i, sink| {
@@ -106,7 +134,7 @@ fn main() {
     cov.insert("exhaustive".into(), json!(true));
     cov.insert("fields".into(), json!(fs.iter().filter(|f| f.bits > 0).map(|f| json!({"field": f.name, "values": 1u32 << f.bits, "entry_points": f.targets.iter().map(|t| t.name).collect::<Vec<_>>()})).collect::<Vec<_>>()));
     cov.insert("rule".into(), json!(
-        "for each enumerated field that does not select the structure being parsed: an otherwise well-formed enclosing structure with the field ranging over its entire domain (256 or 65536 values; both axes for two-byte pairs), parsed through every entry point exposing the field; oracle: accepted, and the whole decoded value equals the strict reference decode (the field equals the wire value, nothing else changes). Plus, for the raw / encrypted record envelope, the grid of every content type x 12 versions x every high byte of the declared length (complete records). Plus the hello messages (TLS and DTLS, client and server) over version x 7 randoms (HelloRetryRequest value, downgrade sentinels) x 2 session ids x 60 cipher kinds x 5 (thorough: all 256) compression ids x 4 extension blocks. Distinct by construction; non-trivial: every case"));
+        "for each enumerated field that does not select the structure being parsed: an otherwise well-formed enclosing structure with the field ranging over its entire domain (256 or 65536 values; both axes for two-byte pairs), parsed through every entry point exposing the field; oracle: accepted, and the whole decoded value equals the strict reference decode (the field equals the wire value, nothing else changes). Plus, for the raw / encrypted record envelope, the grid of every content type x 12 versions x every high byte of the declared length (complete records). Plus the hello messages (TLS and DTLS, client and server) over version x 7 randoms (HelloRetryRequest value, downgrade sentinels) x 2 session ids x 60 cipher kinds x 5 (thorough: all 256) compression ids x 4 extension blocks. Plus every record version on the first fragment / continuation / both (and two different values) of a ClientHello split over two records through TlsRecordsParser. Distinct by construction; non-trivial: every case"));
     let code = run.finish(
         &sink,
         cov,
